@@ -91,6 +91,7 @@ def run(ctx):
     if ctx.tier == 'thorough' and not getattr(ctx, 'sibling', None):
         from .. import sweep
         sweep.error_discipline(ctx, 'C15.R1', skip_files=FILES)
+        sweep.panics(ctx, 'C15.R1')
         sweep.buffered(ctx, 'C15.R1', skip_files=('group.rs', 'report.rs', 'dedupe.rs', 'reflink.rs', 'lock.rs', 'main.rs'))
 
 
